@@ -113,6 +113,32 @@ def run(ctx):
         ctx.fail("C14.R2", "isfile_strict", isf.file, isf.node.lineno, isf.qual,
                  f"isfile_strict returns {rets}: must be S_ISREG of the stat mode")
 
+    # stat() of a descriptor's target can fail in many ways for a live process (ENOENT,
+    # ENOTDIR after a rename, ELOOP, ENAMETOOLONG, ESTALE, EIO): every one of them means
+    # "not a listable regular file"; only a permission failure is let out
+    st_calls = [c_ for c_ in ast.walk(isf.node) if isinstance(c_, ast.Call)
+                and dotted(c_.func) in ("os.stat", "os.lstat")]
+    hgood = bool(st_calls)
+    for c_ in st_calls:
+        stmt_ = next(s_ for s_ in ast.walk(isf.node) if isinstance(s_, ast.stmt)
+                     and not isinstance(s_, (ast.Try, ast.If, ast.FunctionDef, ast.With))
+                     and any(x is c_ for x in ast.walk(s_)))
+        hs_ = [h for t_ in enclosing_trys(isf.node, stmt_) for h in t_.handlers]
+        gen_ = [h for h in hs_ if h.type is None or (dotted(h.type) in ("OSError", "EnvironmentError",
+                                                                        "IOError", "Exception"))]
+        if not gen_ or not any(isinstance(x, ast.Return) and isinstance(x.value, ast.Constant)
+                               and x.value.value is False for h in gen_ for b in h.body
+                               for x in ast.walk(b)):
+            hgood = False
+    if hgood:
+        ctx.ok("C14.R2", "isfile_strict:any-stat-error", sample="except OSError: return False "
+               "(PermissionError re-raised first)")
+    else:
+        ctx.fail("C14.R2", "isfile_strict:any-stat-error", isf.file, isf.node.lineno, isf.qual,
+                 "isfile_strict() no longer answers False for every OSError of stat() other than "
+                 "a permission failure: a descriptor whose target fails with ENOTDIR / ELOOP / "
+                 "ENAMETOOLONG / EIO makes open_files() raise for a live process")
+
     # ------------------------------------------------------------------- R3
     ctx.rule("C14.R3", "a descriptor that is not a link (EINVAL) or whose target is "
              "too long (ENAMETOOLONG) is skipped; other errors propagate; every access to "
